@@ -3,6 +3,7 @@
 PANIC(cone) over reach(Lock::from_path, Lock::to_graph, <source::Pinned as FromStr>::from_str): every potentially
 panicking construct is enumerated from MIR; each must be discharged by a machine-checked idiom or by a reviewed
 entry of spec/c21_sites.txt (keyed by function|construct(receiver)#ordinal, never by line)."""
+import re
 from lib import mir, panics, sites
 
 LEVEL = "proof"
@@ -32,5 +33,33 @@ def run(rep):
         fn = F.fn(nm)
         rep.ob("R0-cone-covers-parsers", nm, fn.id in cone, fn.file, fn.lo,
                "source parser not reachable from source::Pinned::from_str: cone incomplete")
+    # R2: the reviewed map-index site of spec/c21_sites.txt rests on "both passes derive the key the same way".
+    # Decide that part: in Lock::to_graph the key inserted into `pkg_to_node` and the key it is indexed with have the
+    # same root computation (today PkgLock::name_disambiguated on the loop element).
+    tg = roots[1]
+    ins, idx = [], []
+    for bi, t in tg.calls():
+        nm = t.get("rn") or t.get("fp", "")
+        if not t.get("a"):
+            continue
+        recv = panics.origin_var(tg, t["a"][0])
+        if recv != "pkg_to_node":
+            continue
+        if nm.endswith("HashMap::<K, V, S, A>::insert") and len(t["a"]) >= 2:
+            ins.append((t, panics.root_call(tg, t["a"][1])))
+        elif re.search(r"HashMap<K, V, S, A> as core::ops::index::Index<&Q>>::index$", nm):
+            idx.append((t, panics.root_call(tg, t["a"][1])))
+        elif nm.endswith("HashMap::<K, V, S, A>::get") and len(t["a"]) >= 2:
+            pass  # total: returns Option
+    def rname(r):
+        if not r:
+            return "?"
+        return (r[1].get("rn") or r[1].get("fp")) if r[0] == "call" else f"{r[0]}:{r[1]}"
+    for t, r in idx:
+        roots_ins = {rname(x) for _, x in ins}
+        ok = bool(ins) and roots_ins == {rname(r)} and r and r[0] == "call"
+        rep.ob("R2-index-key-agrees-with-insert-key", "forc_pkg::lock::Lock::to_graph|pkg_to_node", ok, tg.file, t["ln"],
+               f"`pkg_to_node[..]` is indexed with a key computed by {rname(r)} but entries are inserted under keys computed by "
+               f"{sorted(roots_ins)}: a lock file on which the two derivations differ panics with 'no entry found for key'")
     fn = F.fn("forc_pkg::lock::parse_pkg_dep_line")
     rep.ob("R0-cone-covers-parsers", fn.name, fn.id in cone, fn.file, fn.lo, "dep-line parser not in cone")
